@@ -98,15 +98,26 @@ where A: FnOnce(FnContext) -> RA + Send, B: FnOnce(FnContext) -> RB + Send, RA: 
     match ids {
         None => { let ra = a(FnContext { migrated: false, _p: PhantomData }); let rb = b(FnContext { migrated: false, _p: PhantomData }); (ra, rb) }
         Some((p, ia, ib, mig)) => {
+            // a task that panics must still give its turn back (the real rayon-core runs both
+            // closures to completion and re-raises the panic in the caller of join)
             let (ra, rb) = std::thread::scope(|sc| {
-                let hb = sc.spawn(move || { wait_turn(ib); let r = b(FnContext { migrated: mig, _p: PhantomData }); finish(ib); r });
+                let hb = sc.spawn(move || {
+                    wait_turn(ib);
+                    let r = std::panic::catch_unwind(std::panic::AssertUnwindSafe(|| b(FnContext { migrated: mig, _p: PhantomData })));
+                    finish(ib);
+                    r
+                });
                 wait_turn(ia);
-                let ra = a(FnContext { migrated: false, _p: PhantomData });
+                let ra = std::panic::catch_unwind(std::panic::AssertUnwindSafe(|| a(FnContext { migrated: false, _p: PhantomData })));
                 finish(ia);
                 // parent continuation must wait for its turn
                 wait_turn(p);
                 (ra, hb.join().unwrap())
             });
+            let (ra, rb) = match (ra, rb) {
+                (Ok(x), Ok(y)) => (x, y),
+                (Err(e), _) | (_, Err(e)) => std::panic::resume_unwind(e),
+            };
             (ra, rb)
         }
     }
